@@ -167,6 +167,14 @@ func corpus() []job {
 		j(&gspec{Kind: "blockset", Name: "b", Kids: []*gspec{dynObj}}, "b {\n  a = \"x\"\n}\nb {\n  a = [1]\n}\n", false),
 		j(&gspec{Kind: "blocklist", Name: "b", Kids: []*gspec{dynObj}}, "b {\n  a = \"x\"\n}\nb {\n  a = 1\n}\n", false),
 		j(&gspec{Kind: "blocklist", Name: "b", Kids: []*gspec{dynObj}}, "b {\n  a = \"x\"\n}\nb {\n  a = \"y\"\n}\n", false),
+		// element types differing only by a nested dynamic part: cty.ListVal/SetVal panic
+		j(&gspec{Kind: "blocklist", Name: "b", Kids: []*gspec{dynObj}}, "b {\n  a = [\"x\"]\n}\nb {\n}\n", false),
+		j(&gspec{Kind: "blockset", Name: "b", Kids: []*gspec{dynObj}}, "b {\n  a = {k = 1}\n}\nb {\n}\n", false),
+		j(&gspec{Kind: "blocklist", Name: "b", Kids: []*gspec{dynObj}}, "b {\n  a = \"x\"\n}\nb {\n}\n", false),
+		// a bare dynamic attribute: number, bool and an absent one "unify" to dynamic; tuple + absent: all unknown
+		j(&gspec{Kind: "blocklist", Name: "b", Kids: []*gspec{attr("a", dynT, false)}}, "b {\n  a = 1\n}\nb {\n  a = true\n}\nb {\n}\n", false),
+		j(&gspec{Kind: "blocklist", Name: "b", Kids: []*gspec{attr("a", dynT, false)}}, "b {\n  a = [1]\n}\nb {\n}\n", false),
+		j(&gspec{Kind: "blockset", Name: "b", Kids: []*gspec{attr("a", dynT, false)}}, "b {\n  a = [1]\n}\nb {\n}\n", false),
 		// multi-label map, nothing present
 		j(map2, "", false),
 		j(map2, "i \"p\" \"q\" {\n  a = \"1\"\n}\ni \"p\" \"r\" {\n  a = \"2\"\n}\ni \"s\" \"r\" {\n}\n", false),
